@@ -23,7 +23,11 @@ DECIDED = [
     'of the 15 slots a unit of its own dimension',
     'R3 a preferred unit, a display unit or a display value never feeds a number on the compute path: slots are only '
     'called as coercions or used as the unit operand of >> / << in presentation functions; elsewhere the unit operand '
-    'is a literal unit or a unit parameter; .units/.unit_value occur only in the re-wrap idiom',
+    'is a literal unit or a unit parameter; .units/.unit_value occur only in the re-wrap idiom; coercing an existing '
+    'quantity with a preferred unit hands back that very object (evaluated); no memoised function reads PreferredUnits',
+    'R4 inside the package no plain number extracted in a fixed unit (q >> U, .raw_value, arithmetic on such, a '
+    'non-zero constant) is passed to a parameter that the callee reads through PreferredUnits.<slot>(p): every such '
+    'call site (module functions, constructors, self.method) is enumerated',
 ]
 NOT_DECIDED = ['nothing further: bit-for-bit independence follows from R3 together with C13.R1 (coercing an existing '
                'quantity rewrites only its display unit) and is not separately measured']
